@@ -95,8 +95,21 @@ def main():
             note(i, kind, 'shell', prompt)
             die_after = st[3] if len(st) > 3 else None      # the connection is lost after that many lines
             nlines = 0
+            import re as _re
+            counter = [None]
+
+            def shown(p):
+                # 'h[#7]$ ' is a prompt with a command counter that starts at 7
+                m = _re.search(r'#(\d+)', p)
+                if not m or not p.startswith('h['):
+                    return p
+                if counter[0] is None:
+                    counter[0] = int(m.group(1))
+                r = p[:m.start()] + str(counter[0]) + p[m.end():]
+                counter[0] += 1
+                return r
             while True:
-                out(prompt)
+                out(shown(prompt))
                 if die_after is not None and nlines >= die_after:
                     note(i, kind, 'died')
                     os._exit(0)
